@@ -146,6 +146,12 @@ class Filter(object):
                 newkeys.append(skey)
                 oldvals.append(cfg_old.get(skey, None))
                 newvals.append(cfg_cur[skey])
+        # Keys that have been removed since the last update
+        for skey in list(cfg_old.keys()):
+            if skey not in cfg_cur:
+                newkeys.append(skey)
+                oldvals.append(cfg_old[skey])
+                newvals.append(None)
 
         # 1. Invalid filters
         arr_invalid = self._get_rw_array("invalid")
